@@ -1,5 +1,5 @@
 (* Model/W4KtensorVec.v — hand references for ktensor.tovec and ktensor.update as generated into Gen/GenKtensor4.v.
-   H_tovec is a closed expression (no running offset, no slice stores); H_update is a fold of one step per listed mode
+   H_tovec is a closed expression (no running offset, no slice stores); H_update is a validation fold (H_needed) followed by a fold of one step per listed mode
    (the state is the tensor and the read position), the sortedness guard is the recursive predicate [asc]. *)
 From Coq Require Import List ZArith Arith Bool Lia.
 From PV Require Import Np.NpZ Np.NpZ2 Np.NpZ3 Np.NpZ3c Np.NpZ3d Np.NpZ3e Np.NpZ4 Model.W4Ktensor.
@@ -16,11 +16,23 @@ Definition H_tovec (self : ktz) (include_weights : bool) : res vec :=
   then Ok ((if include_weights then kt_weights self else []) ++ concat (map (H_vec_factor (zlen (kt_weights self))) (kt_factors self)))
   else Err.
 
-(* ---- update(modes, data) ---- *)
+(* ---- update(modes, data) ---- (two passes since /repo b9311d6: the whole request is validated before the first store) *)
+(* strictly ascending: `np.all(modes[:-1] < modes[1:])` *)
 Fixpoint asc (l : vec) : bool :=
   match l with
-  | x :: (y :: _) as t => (x <=? y) && asc t
+  | x :: (y :: _) as t => (x <? y) && asc t
   | _ => true
+  end.
+(* pass 1: the number of data entries the request consumes; Err for a mode outside {-1} u [0, ndims) *)
+Definition H_need_step (self : ktz) (k needed : Z) : res Z :=
+  let R := zlen (kt_weights self) in
+  if k =? -1 then Ok (needed + R)
+  else if (0 <=? k) && (k <? zlen (kt_factors self)) then Ok (needed + np_nrows (znth [] (kt_factors self) k) * R)
+  else Err.
+Fixpoint H_needed (self : ktz) (modes : vec) (needed : Z) : res Z :=
+  match modes with
+  | [] => Ok needed
+  | k :: ms => bind (H_need_step self k needed) (H_needed self ms)
   end.
 Definition H_chunk (data : vec) (loc e : Z) : vec := py_slice 0 data (mkslice (Some loc) (Some e) None).
 Definition H_update_step (data : vec) (k : Z) (st : ktz * Z) : res (ktz * Z) :=
@@ -43,4 +55,7 @@ Fixpoint H_update_loop (data : vec) (modes : vec) (st : ktz * Z) : res (ktz * Z)
   | k :: ms => bind (H_update_step data k st) (H_update_loop data ms)
   end.
 Definition H_update (self : ktz) (modes data : vec) : res ktz :=
-  if asc modes then bind (H_update_loop data modes (self, 0)) (fun st => Ok (fst st)) else Err.
+  if asc modes then
+    bind (H_needed self modes 0) (fun needed =>
+      if zlen data <? needed then Err else bind (H_update_loop data modes (self, 0)) (fun st => Ok (fst st)))
+  else Err.
